@@ -1,5 +1,380 @@
 package main
 
-// structural facts (filled in as models that need them are added)
+import (
+	"fmt"
+	"go/ast"
+	"go/constant"
+	"go/token"
+	"go/types"
+	"os"
+	"path/filepath"
+	"sort"
+	"strings"
+)
+
+// handshake functions whose operation programs are regenerated on every run
+var hsFuncs = []string{
+	"writePQClientHello", "readPQClientHello", "writePQServerHello", "readPQServerHello",
+	"writePQClientAck", "readPQClientAck", "writePQServerAuth", "readPQServerAuth",
+	"writePQClientAuth", "readPQClientAuth", "ReplayPQDuplexFromCookie",
+	"writePQClientRequestHidden", "readPQClientRequestHidden",
+	"writePQServerResponseHidden", "readPQServerResponseHidden",
+	"deriveFinalKeys", "decryptCookie", "writeCookie",
+	"beginPQDiscoverableHandshake", "beginPQHiddenHandshake", "handlePQClientHello", "handlePQClientRequestHidden",
+	"finishHandshake", "clientHandshakeLocked",
+}
+
+// cases of the message-type switch in Server.readPacket
+var dispatchCases = []string{
+	"MessageTypeClientHello", "MessageTypeClientAck", "MessageTypeClientAuth", "MessageTypeServerHello",
+	"MessageTypeTransport", "MessageTypeClientRequestHidden", "default",
+}
+
+func exprStr(e ast.Expr) string { return types.ExprString(e) }
+
+func constantInt(tv types.TypeAndValue) (int64, bool) {
+	if tv.Value == nil || tv.Value.Kind() != constant.Int {
+		return 0, false
+	}
+	return constant.Int64Val(tv.Value)
+}
+
+// leaves reports whether a block ends the current attempt: it contains a return or a continue.
+func leaves(b *ast.BlockStmt) bool {
+	found := false
+	ast.Inspect(b, func(n ast.Node) bool {
+		switch s := n.(type) {
+		case *ast.ReturnStmt:
+			found = true
+		case *ast.BranchStmt:
+			if s.Tok == token.CONTINUE {
+				found = true
+			}
+		case *ast.FuncLit:
+			return false
+		}
+		return !found
+	})
+	return found
+}
+
+func callOf(e ast.Expr) (*ast.CallExpr, string) {
+	c, ok := e.(*ast.CallExpr)
+	if !ok {
+		return nil, ""
+	}
+	return c, exprStr(c.Fun)
+}
+
+type progBuilder struct {
+	ops        []string
+	pendingMac bool
+	cases      map[string][]string // sub-programs of a switch (Server.readPacket)
+	defs       map[string]ast.Expr // local `name := expr` definitions (for length expressions)
+	info       *types.Info
+}
+
+// linear evaluates a length expression to a + b*n where n is the encrypted-certificates length
+// taken from the message header; ok=false when the expression is not of that form.
+func (p *progBuilder) linear(e ast.Expr, depth int) (a, b int64, ok bool) {
+	if depth > 6 {
+		return 0, 0, false
+	}
+	if p.info != nil {
+		if tv, found := p.info.Types[e]; found && tv.Value != nil {
+			if v, exact := constantInt(tv); exact {
+				return v, 0, true
+			}
+		}
+	}
+	switch x := e.(type) {
+	case *ast.ParenExpr:
+		return p.linear(x.X, depth+1)
+	case *ast.Ident:
+		switch x.Name {
+		case "encCertsLen", "encryptedCertLen", "encCertLen":
+			return 0, 1, true
+		}
+		if d, found := p.defs[x.Name]; found {
+			return p.linear(d, depth+1)
+		}
+	case *ast.BinaryExpr:
+		a1, b1, ok1 := p.linear(x.X, depth+1)
+		a2, b2, ok2 := p.linear(x.Y, depth+1)
+		if !ok1 || !ok2 {
+			return 0, 0, false
+		}
+		switch x.Op {
+		case token.ADD:
+			return a1 + a2, b1 + b2, true
+		case token.MUL:
+			if b1 == 0 {
+				return a1 * a2, a1 * b2, true
+			}
+			if b2 == 0 {
+				return a1 * a2, b1 * a2, true
+			}
+		}
+	}
+	return 0, 0, false
+}
+
+func q(s string) string { return leanString(s) }
+
+func (p *progBuilder) emit(format string, a ...any) {
+	if p.pendingMac && !strings.HasPrefix(format, ".macCheck") {
+		// squeezed into macBuf but overwritten/ignored before any comparison
+		p.pendingMac = false
+		p.ops = append(p.ops, ".squeezeOut "+q("macBuf (not compared)"))
+	}
+	p.ops = append(p.ops, fmt.Sprintf(format, a...))
+}
+
+func b2l(b bool) string {
+	if b {
+		return "true"
+	}
+	return "false"
+}
+
+// errChecked: is the statement following index i an `if err != nil {… return/continue …}`?
+func errChecked(list []ast.Stmt, i int) bool {
+	for i+1 < len(list) {
+		es, ok := list[i+1].(*ast.ExprStmt)
+		if !ok {
+			break
+		}
+		if c, fn := callOf(es.X); c == nil || !strings.HasPrefix(fn, "logrus.") {
+			break
+		}
+		i++
+	}
+	if i+1 >= len(list) {
+		return false
+	}
+	ifs, ok := list[i+1].(*ast.IfStmt)
+	if !ok {
+		return false
+	}
+	c := exprStr(ifs.Cond)
+	return strings.Contains(c, "err != nil") && leaves(ifs.Body)
+}
+
+func (p *progBuilder) call(c *ast.CallExpr, fn string, list []ast.Stmt, i int) {
+	arg := func(k int) string {
+		if k < len(c.Args) {
+			return exprStr(c.Args[k])
+		}
+		return ""
+	}
+	switch {
+	case strings.HasSuffix(fn, "duplex.Absorb"):
+		p.emit(".absorb %s", q(arg(0)))
+	case strings.HasSuffix(fn, "duplex.Squeeze"):
+		if strings.Contains(arg(0), "macBuf") {
+			p.pendingMac = true
+		} else {
+			p.emit(".squeezeOut %s", q(arg(0)))
+		}
+	case strings.HasSuffix(fn, "duplex.Encrypt"):
+		p.emit(".encrypt %s", q(arg(1)))
+	case strings.HasSuffix(fn, "duplex.Decrypt"):
+		p.emit(".decrypt %s true", q(arg(1)))
+	case strings.HasSuffix(fn, "EncryptSNI"):
+		p.emit(".encrypt %s", q("SNI"))
+	case fn == "EncryptCertificates":
+		p.emit(".encrypt %s", q("certs"))
+	case fn == "DecryptCertificates":
+		p.emit(".decrypt %s %s", q(arg(1)), b2l(errChecked(list, i)))
+	case strings.HasSuffix(fn, "certificateParserAndVerifier"):
+		p.emit(".verifyCerts %s", b2l(errChecked(list, i)))
+	case strings.HasSuffix(fn, "RekeyFromSqueeze"):
+		p.emit(".rekey")
+	case strings.HasSuffix(fn, ".DH") || strings.HasSuffix(fn, ".Agree") || strings.HasSuffix(fn, ".Decapsulate") ||
+		fn == "keys.Encapsulate" || strings.HasSuffix(fn, "decryptCookie") || strings.HasSuffix(fn, "writeCookie") ||
+		strings.HasSuffix(fn, "ReplayPQDuplexFromCookie") || strings.HasSuffix(fn, "aead.Open") || strings.HasSuffix(fn, "aead.Seal") ||
+		strings.HasSuffix(fn, "GetCertificate") || strings.HasSuffix(fn, "GetCertList") ||
+		strings.HasSuffix(fn, "duplex.Ratchet") || strings.HasSuffix(fn, "duplex.InitializeEmpty"):
+		short := fn
+		if k := strings.LastIndex(fn, "."); k >= 0 {
+			short = fn[k+1:]
+		}
+		what := short
+		if len(c.Args) > 0 && (short == "DH" || short == "Agree" || short == "Decapsulate") {
+			what = exprStr(c.Fun) + "(" + arg(0) + ")"
+		}
+		p.emit(".compute %s %s", q(what), b2l(errChecked(list, i)))
+	default:
+		short := fn
+		if k := strings.LastIndex(fn, "."); k >= 0 {
+			short = fn[k+1:]
+		}
+		for _, pre := range []string{"readPQ", "writePQ", "handlePQ", "beginPQ", "handleSessionMessage", "finishHandshake",
+			"setHandshakeState", "writePacket", "WriteMsgUDP", "ReadMsgUDP", "deriveFinalKeys", "createSessionFromHandshakeLocked"} {
+			if strings.HasPrefix(short, pre) {
+				p.emit(".compute %s %s", q(short), b2l(errChecked(list, i)))
+				break
+			}
+		}
+	}
+}
+
+func (p *progBuilder) walk(list []ast.Stmt) {
+	for i, st := range list {
+		switch s := st.(type) {
+		case *ast.ExprStmt:
+			if c, fn := callOf(s.X); c != nil {
+				p.call(c, fn, list, i)
+			}
+		case *ast.AssignStmt:
+			if len(s.Lhs) == 1 && len(s.Rhs) == 1 {
+				if id, ok := s.Lhs[0].(*ast.Ident); ok {
+					if p.defs == nil {
+						p.defs = map[string]ast.Expr{}
+					}
+					p.defs[id.Name] = s.Rhs[0]
+				}
+				if strings.HasSuffix(exprStr(s.Lhs[0]), ".certVerify") {
+					p.emit(".compute %s true", q("set certVerify = "+exprStr(s.Rhs[0])))
+				}
+			}
+			for _, r := range s.Rhs {
+				if c, fn := callOf(r); c != nil {
+					p.call(c, fn, list, i)
+				}
+			}
+		case *ast.DeclStmt:
+			// var x = f(...) is not used by the handshake code
+		case *ast.IfStmt:
+			cond := exprStr(s.Cond)
+			// `if err := f(); err != nil` style
+			if s.Init != nil {
+				if as, ok := s.Init.(*ast.AssignStmt); ok {
+					for _, r := range as.Rhs {
+						if c, fn := callOf(r); c != nil {
+							// `if err := f(); err != nil { return }`: the if itself is the error check
+							p.call(c, fn, []ast.Stmt{st, &ast.IfStmt{Cond: s.Cond, Body: s.Body}}, 0)
+						}
+					}
+				}
+			}
+			switch {
+			case strings.Contains(cond, "bytes.Equal(hs.macBuf") || strings.Contains(cond, "bytes.Equal(out.macBuf"):
+				arg := cond
+				if c, ok := s.Cond.(*ast.UnaryExpr); ok {
+					if call, ok := c.X.(*ast.CallExpr); ok && len(call.Args) == 2 {
+						arg = exprStr(call.Args[1])
+					}
+				}
+				p.emit(".macCheck %s %s", q(arg), b2l(leaves(s.Body)))
+				p.pendingMac = false
+			case strings.HasPrefix(cond, "len(b) <") || strings.HasPrefix(cond, "len(x) <"):
+				if leaves(s.Body) {
+					var a, b int64
+					if be, ok := s.Cond.(*ast.BinaryExpr); ok {
+						if la, lb, lok := p.linear(be.Y, 0); lok {
+							a, b = la, lb
+						}
+					}
+					p.emit(".lenGuard %s %d %d", q(strings.TrimSpace(cond[strings.Index(cond, "<")+1:])), a, b)
+				}
+			case strings.Contains(cond, "timeBytes"):
+				p.emit(".timeCheck %s", b2l(leaves(s.Body)))
+			case cond == "!s.config.IsHidden":
+				p.emit(".constCheck %s true", q(cond))
+				p.walk(s.Body.List)
+			case strings.Contains(cond, "err != nil") || strings.Contains(cond, "err == nil"):
+				// accounted for by errChecked of the preceding call; `if err := f(); err != nil`
+				// handled above through Init
+			case strings.Contains(cond, "b[") || strings.Contains(cond, "x[") || strings.Contains(cond, "sessionID") ||
+				strings.Contains(cond, "n != ") || strings.Contains(cond, "len(") || strings.Contains(cond, "c == nil") ||
+				strings.Contains(cond, "MessageType") || strings.Contains(cond, "msgLen") || strings.Contains(cond, "n < ") ||
+				strings.Contains(cond, "KEMKeyPair == nil"):
+				p.emit(".constCheck %s %s", q(cond), b2l(leaves(s.Body)))
+			default:
+				// a branch on configuration or state: both arms belong to the program
+				p.walk(s.Body.List)
+				if eb, ok := s.Else.(*ast.BlockStmt); ok {
+					p.walk(eb.List)
+				}
+			}
+		case *ast.SwitchStmt:
+			for _, cc := range s.Body.List {
+				clause := cc.(*ast.CaseClause)
+				name := "default"
+				if len(clause.List) > 0 {
+					name = exprStr(clause.List[0])
+				}
+				sub := &progBuilder{info: p.info}
+				sub.walk(clause.Body)
+				if p.cases == nil {
+					p.cases = map[string][]string{}
+				}
+				p.cases[name] = sub.ops
+			}
+		case *ast.ForStmt:
+			p.walk(s.Body.List)
+		case *ast.RangeStmt:
+			p.walk(s.Body.List)
+		case *ast.BlockStmt:
+			p.walk(s.List)
+		}
+	}
+	if p.pendingMac {
+		// a MAC was squeezed into macBuf and never compared
+		p.emit(".macCheck %s false", q("<never compared>"))
+		p.pendingMac = false
+	}
+}
+
+// structural facts: the operation program of every handshake reader/writer, and the dispatch
+// facts of Server.readPacket.
 func structural(l *loader, facts map[string]any, out string) {
+	progs := map[string][]string{}
+	for _, f := range l.files["transport"] {
+		for _, d := range f.Decls {
+			fd, ok := d.(*ast.FuncDecl)
+			if !ok || fd.Body == nil {
+				continue
+			}
+			for _, want := range hsFuncs {
+				if fd.Name.Name == want {
+					p := &progBuilder{info: l.infos["transport"]}
+					p.walk(fd.Body.List)
+					progs[want] = p.ops
+				}
+			}
+			if fd.Name.Name == "readPacket" && fd.Recv != nil {
+				p := &progBuilder{info: l.infos["transport"]}
+				p.walk(fd.Body.List)
+				progs["readPacket"] = p.ops
+				for _, c := range dispatchCases {
+					progs["readPacket_"+c] = p.cases[c]
+				}
+			}
+		}
+	}
+	var b strings.Builder
+	b.WriteString("/- GENERATED by harness/extract from /repo's current source on every run. Do not edit. -/\n")
+	b.WriteString("import HopModel.Base.HOp\nnamespace Generated\nopen HOp\n\n")
+	names := append([]string(nil), hsFuncs...)
+	names = append(names, "readPacket")
+	for _, c := range dispatchCases {
+		names = append(names, "readPacket_"+c)
+	}
+	sort.Strings(names)
+	for _, n := range names {
+		ops := progs[n] // absent function: empty program, every theorem about it fails
+		fmt.Fprintf(&b, "def prog_%s : List HOp := [", n)
+		for i, o := range ops {
+			if i > 0 {
+				b.WriteString(",")
+			}
+			b.WriteString("\n  " + o)
+		}
+		b.WriteString("]\n\n")
+	}
+	b.WriteString("end Generated\n")
+	os.WriteFile(filepath.Join(out, "HandshakeOps.lean"), []byte(b.String()), 0o644)
+	facts["handshake_programs"] = progs
 }
